@@ -1300,6 +1300,29 @@ func (wk *walker) ifStmt(s *ast.IfStmt, rest []ast.Stmt, cont []frame, st *pstat
 		if err != nil {
 			return actNext, wk.bad(s, "if condition outside the fragment")
 		}
+		// if p.F != nil { WriteBool(true); ... } else { WriteBool(false); ... } : the flag is written inside the branches
+		if tv, ok1 := wk.constBoolWrite(s.Body.List); ok1 {
+			if ev, ok2 := wk.constBoolWrite(elseStmts(s)); ok2 && tv != ev {
+				k := append([]frame{{stmts: rest, wk: wk}}, cont...)
+				thenS, elseS := s.Body.List[1:], elseStmts(s)[1:]
+				flag := f
+				if !tv {
+					thenS, elseS = elseS, thenS
+					flag = negFx(f)
+				}
+				// thenS runs when the wire bool is true; the flag written is `cond` (or its negation)
+				a, err := wk.block(thenS, k, st.clone())
+				if err != nil {
+					return actNext, err
+				}
+				c, err := wk.block(elseS, k, st.clone())
+				if err != nil {
+					return actNext, err
+				}
+				b.tail = &tail{kind: "opt", f: flag, a: a, b: c}
+				return actDone, nil
+			}
+		}
 		if len(b.items) == 0 {
 			return actNext, wk.bad(s, "data-dependent if not preceded by a bool write")
 		}
@@ -1425,6 +1448,36 @@ func (wk *walker) ifStmt(s *ast.IfStmt, rest []ast.Stmt, cont []frame, st *pstat
 	}
 	b.tail = &tail{kind: "opt", f: flag, a: a, b: cblk}
 	return actDone, nil
+}
+
+// constBoolWrite: the first statement writes the constant true / false as a bool
+func (wk *walker) constBoolWrite(stmts []ast.Stmt) (bool, bool) {
+	if len(stmts) == 0 {
+		return false, false
+	}
+	var call *ast.CallExpr
+	switch x := stmts[0].(type) {
+	case *ast.ExprStmt:
+		call, _ = x.X.(*ast.CallExpr)
+	case *ast.AssignStmt:
+		if len(x.Rhs) == 1 {
+			call, _ = x.Rhs[0].(*ast.CallExpr)
+		}
+	}
+	if call == nil || !wk.isIOCall(call) || len(call.Args) == 0 {
+		return false, false
+	}
+	sel := call.Fun.(*ast.SelectorExpr)
+	switch sel.Sel.Name {
+	case "WriteBool", "PWriteBool", "Bool":
+	default:
+		return false, false
+	}
+	id, ok := call.Args[len(call.Args)-1].(*ast.Ident)
+	if !ok || (id.Name != "true" && id.Name != "false") {
+		return false, false
+	}
+	return id.Name == "true", true
 }
 
 func samePath(a, b []string) bool { return strings.Join(a, "\x00") == strings.Join(b, "\x00") }
